@@ -98,6 +98,9 @@ def write_to_json_file(json_path: Path, dictionary: dict) -> None:
     and not if this process dies halfway.
     """
     json_path = Path(json_path)
+    # NaN and Infinity (e.g. from 1e999 in a merged file) are not JSON:
+    # refuse them before anything is written.
+    json.dumps(dictionary, allow_nan=False)
     try:
         mode = stat.S_IMODE(os.stat(json_path).st_mode)
     except FileNotFoundError:
